@@ -134,6 +134,8 @@ const (
 	spin = `for {}`
 	// endless loops without a single jump instruction: a self call in tail position re-uses its frame
 	spinTail = "var s\ns = func(n) { return s(n + 1) }\nreturn s(0)\n"
+	// ... the same through a selector call (its own call instruction)
+	spinSelector = "m := {}\nm.spin = func(n) { return m.spin(n + 1) }\nreturn m.spin(0)\n"
 	// ... and one made of calls and jumps (the loop body calls a function that loops a little itself)
 	spinCalls = "w := func() { for i := 0; i < 2; i++ { } }\nfor { w() }\n"
 	fin       = `x := 0; for i := 0; i < 3; i++ { x += i }; return x` // 3
@@ -148,6 +150,8 @@ func scriptName(s string) string {
 		return "spin-tail-calls"
 	case spinCalls:
 		return "spin-calls"
+	case spinSelector:
+		return "spin-selector-tail-calls"
 	case fin:
 		return "loop3"
 	case fin2:
@@ -188,17 +192,17 @@ func wantOf(s string) int64 {
 func scenarios(thorough bool) []*scenario {
 	var out []*scenario
 	// root: one Run, 1-2 aborts, possibly from two threads
-	for _, s := range []string{spin, fin, fin2, spinTail, spinCalls} {
+	for _, s := range []string{spin, fin, fin2, spinTail, spinCalls, spinSelector} {
 		for _, n := range []int{1, 2} {
 			s, n := s, n
-			if n == 2 && (s == spinTail || s == spinCalls) {
+			if n == 2 && (s == spinTail || s == spinCalls || s == spinSelector) {
 				continue
 			}
 			bc := compile(s)
 			out = append(out, &scenario{
 				key:     fmt.Sprintf("root script=%s aborts=%d", scriptName(s), n),
 				desc:    "T1 vm.Run(script) || T2 vm.Abort() x n",
-				nonterm: []bool{s == spin || s == spinTail || s == spinCalls}, want: []int64{wantOf(s)},
+				nonterm: []bool{s == spin || s == spinTail || s == spinCalls || s == spinSelector}, want: []int64{wantOf(s)},
 				body: func() {
 					vm := ugo.NewVM(bc)
 					vsched.Go("run", func() { runVM(vm, 0, nil) })
